@@ -42,7 +42,7 @@ def scan_assumptions(text):
     return found
 
 
-def run_unit(name, rlimit=None, extra_args=(), expanded_src=None, use_cache=True):
+def run_unit(name, rlimit=None, extra_args=(), expanded_src=None, use_cache=True, timeout=None):
     u = unitgen.generate(name, expanded_src=expanded_src)
     r = VerusResult()
     r.unit = u
@@ -74,11 +74,11 @@ def run_unit(name, rlimit=None, extra_args=(), expanded_src=None, use_cache=True
         r.wall_s = d.get("wall_s", 0.0)
     else:
         try:
-            p = subprocess.run(args, capture_output=True, text=True, timeout=VERUS_TIMEOUT,
+            p = subprocess.run(args, capture_output=True, text=True, timeout=(timeout or VERUS_TIMEOUT),
                                cwd=os.path.join(BUILD, "units"))
             out, err, rc = p.stdout, p.stderr, p.returncode
         except subprocess.TimeoutExpired as ex:
-            r.undecided = "verus timeout after %ds" % VERUS_TIMEOUT
+            r.undecided = "verus timeout after %ds (the unit verifies in a fraction of that on the unchanged tree: a proof that no longer goes through)" % (timeout or VERUS_TIMEOUT)
             r.wall_s = time.time() - t0
             return r
         r.wall_s = time.time() - t0
